@@ -142,13 +142,6 @@ func VerifC03Ziplist() {
 	verifReach("ziplist.done")
 }
 
-func verifB2I(b bool) int64 {
-	if b {
-		return 1
-	}
-	return 0
-}
-
 // verifListpackElem appends one element of class c plus its back-length.
 func verifListpackElem(buf []byte, c int) ([]byte, verifElem) {
 	var enc []byte
